@@ -273,7 +273,7 @@ def check_connected(w, a, b, chans, received, round_tag):
     return out
 
 
-def run_config(cfg, followup=None, foreign=False, early=False):
+def run_config(cfg, followup=None, foreign=False, early=False, capture=None):
     """Returns list of (clause, detail)."""
     w = PcWorld()
     w.net.check_latency = 0.3 if early else 0.0
@@ -299,6 +299,8 @@ def run_config(cfg, followup=None, foreign=False, early=False):
             where = next((f.name for f in reversed(tb) if "aiortc" in f.filename), "?")
             return [("negotiate/raises/%s" % type(e).__name__, "%s: %s in %s" % (type(e).__name__, e, where))]
         out = []
+        if capture is not None:
+            capture["offer"], capture["answer"] = offer.sdp, answer.sdp
         if a.signalingState != "stable" or b.signalingState != "stable":
             out.append(("negotiate/not-stable", "signalingState %s / %s" % (a.signalingState, b.signalingState)))
         out += check_descriptions(offer.sdp, answer.sdp, a, b)
@@ -353,10 +355,17 @@ def cfg_key(cfg, followup):
         ",".join("%s%s" % (k, "+track" if t else "") for k, t in cfg["pre"]) or "-", cfg["adc"], cfg["ab"], followup or "-")
 
 
+REFERENCE_CFG = dict(media=(("audio", "sendrecv", "track", "default"), ("video", "sendrecv", "track", "default")), odc=True, ob="balanced",
+                     pre=(("audio", True), ("video", True)), adc=False, ab="balanced")
+
+
 def task(args):
     tier, shard, nshard = args
     T = Tally()
     cs = configs(tier)
+    # sessions are independent of each other: a reference configuration negotiated before everything else in this worker ...
+    before = {}
+    run_config(REFERENCE_CFG, capture=before)
     for i, cfg in enumerate(cs):
         if i % nshard != shard:
             continue
@@ -378,6 +387,21 @@ def task(args):
                                  followup=fu, foreign=foreign, early=early))
             if i % 997 == 0 and fu is None:
                 T.sample(dict(kind="configuration", cfg=cfg_key(cfg, fu)))
+    # ... gives exactly the same descriptions after the worker has been through hundreds of other sessions (foreign
+    # numbering, other codec preferences, follow-ups): nothing a session does may leak into the next one
+    after = {}
+    run_config(REFERENCE_CFG, capture=after)
+    T.case("isolation/%d" % shard)
+    T.count("session-isolation-comparisons")
+    for k in ("offer", "answer"):
+        # (every connection makes its own certificate: fingerprint lines are left out of the comparison)
+        a = [x for x in (before.get(k) or "").split("\r\n") if not x.startswith("a=fingerprint:")]
+        b = [x for x in (after.get(k) or "").split("\r\n") if not x.startswith("a=fingerprint:")]
+        if a != b:
+            diff = next(((x, y) for x, y in zip(a, b) if x != y), (len(a), len(b)))
+            T.violation("isolation/" + k, "isolation/descriptions-differ",
+                        "the reference configuration's %s differs after %d other sessions in the same process: first difference %r" % (k, len(cs) // nshard, diff),
+                        dict(kind="isolation", shard=shard, nshard=nshard, tier=tier))
     return T
 
 
@@ -394,7 +418,7 @@ def run(tier, seed):
              "sub-product, each also started EARLY (at once after the first answer is applied, while ICE and DTLS of the first round are still in flight); every configuration with media is run twice: natively, and with the two peers numbering things differently "
              "(every description crossing between them has its dynamic payload types and header-extension ids renumbered by an "
              "involution, as if the other peer were a browser). Each configuration: real createOffer/setLocal/setRemote/createAnswer on two real RTCPeerConnections; "
-             "oracle: no call raises, both stable, answer sections mirror the offer (count/order/kind/mid), BUNDLE subset in order, "
+             "[plus, per worker, a reference configuration negotiated before and after all others: identical descriptions - sessions do not leak into each other] oracle: no call raises, both stable, answer sections mirror the offer (count/order/kind/mid), BUNDLE subset in order, "
              "answer codecs offered with the offerer's payload types, RTX only next to its base, rtcp-fb and header extensions "
              "offered (same ids), definite DTLS role, complementary currentDirection; then run: both connected, negotiated "
              "channels open, one message per channel delivered. distinct = distinct configuration keys",
@@ -405,6 +429,11 @@ def run(tier, seed):
 
 def replay(rep):
     r = rep["replay"]
+    if r.get("kind") == "isolation":
+        T = task((r["tier"], r["shard"], r["nshard"]))
+        bad = [k for k in (T.violations if isinstance(T.violations, dict) else {}) if str(k).startswith("isolation")]
+        print("isolation clause on shard %d/%d:" % (r["shard"], r["nshard"]), "FAILS" if bad else "holds")
+        return 1 if bad else 0
     cfg = dict(r["cfg"], media=tuple(tuple(m) for m in r["cfg"]["media"]), pre=tuple(tuple(p) for p in r["cfg"]["pre"]))
     print(cfg_key(cfg, r.get("followup")))
     v = run_config(cfg, r.get("followup"), r.get("foreign", False), r.get("early", False))
